@@ -10,7 +10,7 @@
 //   W_KEY       0 int | 1 std::string | 2 tracked struct with operator< | 3 tracked struct with std::hash and == | 4 enum class
 //   W_ARG       0 Payload by value | 1 const Payload & | 2 Payload &
 //   W_MODE      0 default policies, calls exclude the event (key, args...) | 1 ArgumentPassingIncludeEvent: prototype (Key, Arg), key is an argument
-//               2 ArgumentPassingExcludeEvent | 3 user getEvent policy: key taken from the payload
+//               2 ArgumentPassingExcludeEvent | 3 user getEvent policy: key taken from the payload | 4 user getEvent(key, payload by value)
 //   W_MAP       0 default | 1 std::map | 2 std::unordered_map (needs hash) | 3 user map template
 //   W_FILTER    0 none | 1 MixinFilter
 //   W_ORDER     0 std::list | 1 OrderedQueueList ascending by key | 2 descending by key | 3 ascending by argument value
@@ -175,6 +175,9 @@ struct Pol
 	using ArgumentPassingMode = eventpp::ArgumentPassingExcludeEvent;
 #elif W_MODE == 3
 	static Key getEvent(const Payload & p) { return makeKey(p.key); }
+#elif W_MODE == 4
+	// user policy that looks at a later argument and takes it BY VALUE (as tests/unittest "customized event" does)
+	static Key getEvent(const Key & k, Payload p) { return p.uid == -1 ? makeKey(0) : k; }
 #endif
 #if W_MAP == 1
 	template <typename K, typename V> using Map = std::map<K, V>;
